@@ -208,27 +208,51 @@ Definition holders (ps : list kproc) (ino : bytes) : list (Z * Z) :=
   flat_map (fun p => holders_in p ino) ps.
 
 (* ------------------------------------------------------------ the kernel state *)
+(* a table without sockets as procfs emulations / sandboxes export it: the file exists but is degenerate *)
+Inductive degenerate :=
+| DEmpty          (* 0 bytes: not even the header line *)
+| DHeaderNoNl     (* the header without its newline *)
+| DNewline.       (* a lone newline *)
+Definition k_deg_file (d : degenerate) (hdr : bytes) : bytes :=
+  match d with DEmpty => [] | DHeaderNoNl => hdr | DNewline => [10] end.
+(* the file of a table: the degenerate form when the state says so, else header + records *)
+Definition k_table_file (deg : option degenerate) (hdr body : bytes) : bytes :=
+  match deg with Some d => k_deg_file d hdr | None => body end.
+
 Record kstate := {
   k_tcp4 : list isock; k_tcp6 : option (list isock);    (* None: no IPv6, the file is absent *)
   k_udp4 : list isock; k_udp6 : option (list isock);
   k_unix : list usock;
-  k_procs : list kproc }.
+  k_procs : list kproc;
+  k_deg : bytes -> option degenerate }.                  (* file name -> degenerate form (only for tables without sockets) *)
+Definition is_nil {A} (l : list A) : bool := match l with [] => true | _ => false end.
 
 Definition opt_list {A} (o : option (list A)) : list A := match o with Some l => l | None => [] end.
+
+(* a degenerate file stands for a table that exists and holds no socket *)
+Definition deg_ok (st : kstate) : bool :=
+  (match k_deg st (bs "tcp") with Some _ => is_nil (k_tcp4 st) | None => true end)
+  && (match k_deg st (bs "tcp6") with Some _ => match k_tcp6 st with Some [] => true | _ => false end | None => true end)
+  && (match k_deg st (bs "udp") with Some _ => is_nil (k_udp4 st) | None => true end)
+  && (match k_deg st (bs "udp6") with Some _ => match k_udp6 st with Some [] => true | _ => false end | None => true end)
+  && (match k_deg st (bs "unix") with Some _ => is_nil (k_unix st) | None => true end).
 
 Definition wf_state (st : kstate) : bool :=
   forallb (wf_isock false) (k_tcp4 st) && forallb tcp_state_ok (k_tcp4 st)
   && forallb (wf_isock true) (opt_list (k_tcp6 st)) && forallb tcp_state_ok (opt_list (k_tcp6 st))
   && forallb (wf_isock false) (k_udp4 st) && forallb (wf_isock true) (opt_list (k_udp6 st))
-  && forallb wf_usock (k_unix st) && forallb wf_kproc (k_procs st).
+  && forallb wf_usock (k_unix st) && forallb wf_kproc (k_procs st)
+  && deg_ok st.
 
 (* /proc/net/<name> *)
 Definition k_files (le : bool) (st : kstate) (name : bytes) : option bytes :=
-  if beqb name (bs "tcp") then Some (k_ifile le hdr_tcp (k_tcp4 st))
-  else if beqb name (bs "tcp6") then option_map (k_ifile le hdr_tcp6) (k_tcp6 st)
-  else if beqb name (bs "udp") then Some (k_ifile le hdr_udp (k_udp4 st))
-  else if beqb name (bs "udp6") then option_map (k_ifile le hdr_udp6) (k_udp6 st)
-  else if beqb name (bs "unix") then Some (k_ufile (k_unix st))
+  if beqb name (bs "tcp") then Some (k_table_file (k_deg st (bs "tcp")) hdr_tcp (k_ifile le hdr_tcp (k_tcp4 st)))
+  else if beqb name (bs "tcp6")
+       then option_map (fun l => k_table_file (k_deg st (bs "tcp6")) hdr_tcp6 (k_ifile le hdr_tcp6 l)) (k_tcp6 st)
+  else if beqb name (bs "udp") then Some (k_table_file (k_deg st (bs "udp")) hdr_udp (k_ifile le hdr_udp (k_udp4 st)))
+  else if beqb name (bs "udp6")
+       then option_map (fun l => k_table_file (k_deg st (bs "udp6")) hdr_udp6 (k_ifile le hdr_udp6 l)) (k_udp6 st)
+  else if beqb name (bs "unix") then Some (k_table_file (k_deg st (bs "unix")) hdr_unix (k_ufile (k_unix st)))
   else None.
 (* the printed tcp/udp files hold no character that only text-mode reading treats as white space / newline, and
    neither does the fixed-format part of the unix records (the kernel prints hex digits, digits, blanks and ':'
@@ -337,7 +361,7 @@ Definition restrict6 (o : ipv6_oracle) (st : kstate) : kstate :=
   if o_ntop6 o then st
   else {| k_tcp4 := k_tcp4 st; k_tcp6 := option_map (filter ports_zero) (k_tcp6 st);
           k_udp4 := k_udp4 st; k_udp6 := option_map (filter ports_zero) (k_udp6 st);
-          k_unix := k_unix st; k_procs := k_procs st |}.
+          k_unix := k_unix st; k_procs := k_procs st; k_deg := k_deg st |}.
 
 (* the /proc/net tables a call reads: those of the kind's classes that exist, each once, in this order *)
 Definition spec_log (kind : bytes) (st : kstate) : list bytes :=
